@@ -44,6 +44,12 @@ func (g *gateProvider) Retained(topic []byte, msgs *[]*message.PublishMessage) e
 	return g.Provider.Retained(topic, msgs)
 }
 
+func (g *gateProvider) Retain(msg *message.PublishMessage) error {
+	g.call("Retain", "before", msg.Topic())
+	defer g.call("Retain", "after", msg.Topic())
+	return g.Provider.Retain(msg)
+}
+
 // SetGate installs (nil: removes) the provider call-out of this broker.
 func (b *Broker) SetGate(f GateFn) {
 	if f == nil {
